@@ -293,6 +293,44 @@ pub fn map_segment<Ty: EdgeType + Clone, S: BuildHasher + Default + Clone>(rng: 
             let w = next();
             let (a, b) = if rng.chance(1, 4) { (b, a) } else { (a, b) };
             (json!({"op":"add_edge","a":a,"b":b,"w":w}), match g.add_edge(a, b, w) { Some(o) => rint(o as i64), None => rnone() })
+        } else if r < 56 {
+            // the data::Build route (add_edge refuses an existing pair, update_edge overwrites) and data::FromElements
+            let a = key(rng);
+            let b = match rng.below(6) { 0 => a, _ => key(rng) };
+            let w = next();
+            match rng.below(5) {
+                0 | 1 => {
+                    let e = json!({"op":"build_add_edge","a":a,"b":b,"w":w});
+                    log.about_to(&e);
+                    (e, pan(guard(|| rb(Build::add_edge(&mut g, a, b, w).is_some()))))
+                }
+                2 | 3 => {
+                    let e = json!({"op":"build_update_edge","a":a,"b":b,"w":w});
+                    log.about_to(&e);
+                    (e, pan(guard(|| { Build::update_edge(&mut g, a, b, w); rs("ok") })))
+                }
+                _ => {
+                    use petgraph::data::{Element, FromElements};
+                    let mut nodes: Vec<i32> = keys.clone();
+                    nodes.sort(); nodes.dedup();
+                    rng.shuffle(&mut nodes);
+                    nodes.truncate(1 + rng.below(nodes.len()));
+                    let nn = nodes.len();
+                    let mut edges: Vec<(usize, usize, i32)> = vec![];
+                    for _ in 0..rng.below(7) {
+                        let (x, y) = if !edges.is_empty() && rng.chance(1, 3) { let (x, y, _) = edges[rng.below(edges.len())]; if rng.chance(1, 2) { (x, y) } else { (y, x) } } else { (rng.below(nn), rng.below(nn)) };
+                        edges.push((x, y, next()));
+                    }
+                    let e = json!({"op":"from_elements","nodes":nodes,"edges":edges.iter().map(|&(x, y, w)| json!([nodes[x], nodes[y], w])).collect::<Vec<_>>()});
+                    log.about_to(&e);
+                    let els: Vec<Element<i32, i32>> = nodes.iter().map(|&k| Element::Node { weight: k })
+                        .chain(edges.iter().map(|&(x, y, w)| Element::Edge { source: x, target: y, weight: w })).collect();
+                    match guard(|| GraphMap::<i32, i32, Ty, S>::from_elements(els)) {
+                        Ok(m) => { g = m; (e, rs("ok")) }
+                        Err(()) => (e, json!(["panic"])),
+                    }
+                }
+            }
         } else if r < 62 {
             let (a, b) = (key(rng), key(rng));
             (json!({"op":"remove_edge","a":a,"b":b}), match g.remove_edge(a, b) { Some(o) => rint(o as i64), None => rnone() })
